@@ -149,6 +149,21 @@ def check_global(ctx: Ctx):
         if len(d) >= 2:
             vals = set(d.values())
             ctx.decide("R13.1", init, init.node, f"{init.qual}:metric={key[0]}:pred_empty={key[1]},ref_empty={key[2]}:independent", "global metric does not depend on tp, the instance counts or the per-instance lists", len(vals) == 1, {str(k): v for k, v in d.items()})
+    # a handler may prescribe None (EdgeCaseResult.NONE) for an empty foreground: the metric is
+    # then *reported* as None - calculated, not in error, not re-computed on access
+    ech_none, _ = build_edge_case_handler(prog, metrics, none_values=True)
+    for m in metrics[:2]:
+        name = m.attrs["_name_"]
+        attr = f"global_bin_{name.lower()}"
+        for out, o, pred, ref, it in run_constructor(ctx, metrics, ech_none, [m], 0, {}, 3, 5):
+            em = _emptiness(out, pred, ref, None)
+            if out.kind == "raise" or em is None or (em[0], em[1]) not in EXPECT:
+                continue
+            cn = f"{init.qual}:metric={name}:none-valued handler:pred_empty={em[0]},ref_empty={em[1]}"
+            e = (o.attrs.get("_evaluation_metrics") or {}).get(attr)
+            got = o.attrs.get(attr, "?")
+            state = (e.attrs.get("_was_calculated"), e.attrs.get("_error")) if isinstance(e, Obj) else None
+            ctx.decide("R13.2", init, init.node, cn, "a prescribed None is reported as the metric's value (registered as calculated, not as missing or failed)", got is None and state == (True, False), {"got": repr(got), "(was_calculated, error)": repr(state)})
     # requesting several global metrics at once gives each metric the value it has on its own
     runs = run_constructor(ctx, metrics, ech, list(metrics), 0, {})
     for out, o, pred, ref, it in runs:
